@@ -4,7 +4,7 @@ import (
 	"fmt"
 	"time"
 
-	"github.com/rulego/streamsql/utils/simrt"
+	"verif.local/simrt"
 )
 
 // C09 — counting windows emit, per key, consecutive batches of exactly N rows (DESIGN.md §3 C09).
